@@ -24,7 +24,7 @@ ORDER = ["side_partial_cmp", "ub_partial_cmp", "ub_matches", "ub_try_into_range"
          "ub_new", "ub_from_range", "ub_unpack", "ub_complement",
          "ubl_bounds_only", "ubl_is_sortable", "ubl_is_sorted", "ubl_has_negative_indices", "ubl_is_forward_only",
          "fast_try_from", "stream_try_from", "side_from_str", "ub_from_str",
-         "ubl_unpack", "ubl_complement", "cut_bytes"]
+         "ubl_unpack", "ubl_complement", "cut_bytes", "fast_output_parts", "fast_cut_record"]
 DEPS = {"ub_partial_cmp": ["side_partial_cmp"], "ub_from_range": ["ub_new"], "ub_unpack": ["ub_new", "ub_try_into_range"],
         "ub_complement": ["ub_try_into_range", "complement_std_range", "ub_from_range", "ub_new"],
         "ubl_is_sortable": ["ubl_bounds_only"], "ubl_is_sorted": ["ubl_bounds_only", "ub_partial_cmp", "side_partial_cmp"],
@@ -32,6 +32,8 @@ DEPS = {"ub_partial_cmp": ["side_partial_cmp"], "ub_from_range": ["ub_new"], "ub
         "ub_from_str": ["side_from_str", "ub_new"],
         "ubl_unpack": ["ub_unpack", "ub_new", "ub_try_into_range"],
         "cut_bytes": ["ub_try_into_range", "ubl_unpack", "ub_unpack", "ub_new"],
+        "fast_output_parts": ["ub_try_into_range"],
+        "fast_cut_record": ["fast_output_parts", "ub_try_into_range", "fast_try_from"],
         "ubl_complement": ["ub_complement", "ub_try_into_range", "complement_std_range", "ub_from_range", "ub_new", "ubl_unpack",
                            "ubl_has_negative_indices", "ubl_bounds_only"],
         "ubl_is_forward_only": ["ubl_bounds_only", "ubl_is_sortable", "ubl_is_sorted", "ubl_has_negative_indices", "ub_partial_cmp", "side_partial_cmp"]}
@@ -58,6 +60,8 @@ USES = {
     "ubl_unpack": ["C07", "C08", "C13"],
     "ubl_complement": ["C13", "C15"],
     "cut_bytes": ["C06", "C13"],
+    "fast_output_parts": ["C02", "C13"],
+    "fast_cut_record": ["C01", "C02", "C10"],
 }
 LEMMA = {n: "tie_" + n for n in ORDER}
 
